@@ -1145,7 +1145,8 @@ func (c *DefaultCtx) Params(key string, defaultValue ...string) string {
 			if len(c.values) <= i || len(c.values[i]) == 0 {
 				break
 			}
-			return c.values[i]
+			// the values are substrings of the path buffer: copy them if Immutable
+			return c.app.getString(utils.UnsafeBytes(c.values[i]))
 		}
 	}
 	return defaultString("", defaultValue)
